@@ -1,14 +1,14 @@
 """C11 / C12 / C13: time ranges, row limits, multi-symbol and column-projected queries.
 StoreQuery.tla cases (stored content x query) replayed into the real DataService."""
 PROPS = ["C11", "C12", "C13"]
-READY = False
+READY = True
 CLAIMS = {
  "C11": dict(technique="TLA+ refinement (read plan: per-file offsets from the range, whole-interval scan, trimResultsToRange vs the range predicate of the statement) checked by TLC; TLC-enumerated cases (stored content x start/end bound classes) replayed into the real DataService",
              text="TLC checks for every stored content of a fixed and of a variable bucket (interval ids in two year files, offset classes inside an interval) and every pair of range bounds on an ordered axis of bound classes (on an interval start, inside an interval before / between / after the records, exactly on a record's time, before the first / between the / after the last year, start > end) that the implementation-shaped read plan (NewIOPlan offsets per year file, slot scan, trimResultsToRange) returns exactly the rows the statement puts in range; the same TLC run emits the cases (expected rows, rows predicted for the listed deviations, guards that fired); they are concretised to nanosecond bounds (the exact stored time of every record is first read back from the real server) and replayed through DataService.Query for several timeframes; the real answer must be the statement's answer computed from the real unrestricted result.",
-             note="Trusted: TLC, the Python concretisation (positions -> nanosecond bounds), UTC. Bounded: <= 5 interval ids over 2 year files, 2 offset classes, <= 2 records per class; quick replays a cost-bounded seeded sample of the emitted cases for 1Sec, 1Min, 1H, 1D, thorough for all 11 timeframes. 1D rows on Jan 1 and timestamps in the 'one second late' window are storage defects of C08/C09 and are avoided."),
+             note="Trusted: TLC, the Python concretisation (positions -> nanosecond bounds), UTC. Bounded: <= 5 interval ids over 2 year files, 2 offset classes (exhaustive check: 3-4 interval ids; <= 2 records per class in a separate run); quick replays a cost-bounded seeded sample of the emitted cases for 1Sec, 1Min, 1H, 1D, thorough for all 11 timeframes. 1D rows on Jan 1 and timestamps in the 'one second late' window are storage defects of C08/C09 and are avoided."),
  "C12": dict(technique="TLA+ refinement (plan-level limit in bytes, forward / backward file scan, bufferMeta bookkeeping, trimResultsToLimit after trimResultsToRange vs first/last N of the unlimited answer) checked by TLC; TLC-enumerated cases replayed into the real DataService",
              text="As C11 with a row limit: TLC enumerates stored contents x range bounds x N in 1..rows+1 x {first, last} and checks that the intended read plan returns the first / last N rows of the unlimited answer; the emitted cases are replayed through DataService.Query and every limited answer must be the prefix / suffix of the real answer of the same query without a limit.",
-             note="Trusted: TLC, the Python concretisation. The read-buffer chunk in which each interval of the first year file lies (it decides the BackwardMetaOverrun deviation) is computed from the concrete interval positions and handed to TLC with the stored content. Bounds: exhaustive check over 3-4 interval ids, 2 offset classes, all N; replayed cases over 5 interval ids; quick uses one offset class with up to two records of the same time and N <= 3, thorough two offset classes and all N in 1..rows+1."),
+             note="Trusted: TLC, the Python concretisation. The read-buffer chunk in which each interval of the first year file lies (it decides the BackwardMetaOverrun deviation) is computed from the concrete interval positions and handed to TLC with the stored content. Bounds: exhaustive check over 3-4 interval ids, 2 offset classes, all N; replayed cases over 5 interval ids; quick replays one offset class with up to two records of the same time and N <= 3, thorough two offset classes and N <= 6 (the exhaustive TLC check covers all N in 1..rows+1)."),
  "C13": dict(technique="TLA+ refinement (symbol list / '*' expansion, per-bucket IOPlan, FilterColumns/Project, NumpyMultiDataset.Append vs per-symbol single queries and the projected column set) checked by TLC; TLC-enumerated cases replayed into the real DataService",
              text="TLC enumerates all non-empty subsets of three existing and one missing symbol and '*', all column lists up to length 3 over two data columns and an unknown name (with repetitions), stored contents of the three buckets and five query shapes, and checks that the implementation-shaped multi query equals the per-symbol single queries and keeps exactly the time columns and the requested existing columns; the emitted cases are replayed through DataService.Query: the multi-symbol answer must equal, symbol by symbol, the real answer of the single query, and the projected answer must carry the same rows and values as the unprojected one, restricted to the time columns and the requested columns.",
              note="Trusted: TLC, the Python concretisation. Every case group lives in its own attribute group so that '*' sees exactly the three buckets. Symbols share one schema (different schemas per symbol are outside the statement)."),
@@ -481,7 +481,7 @@ def run_single(prop, tier):
             tlc(res, "StoreQuery_range_dup_mc.cfg", tlc_consts(Dims(2, 1, 1, 2), mode, ["variable"], ["intraday"]), inv, 6000)
     else:
         if quick:
-            tlc(res, "StoreQuery_limit_mc.cfg", tlc_consts(Dims(2, 1, 2, 1), mode, *kc), inv, 3000)
+            tlc(res, "StoreQuery_limit_mc.cfg", tlc_consts(Dims(2, 1, 2, 1), mode, *kc, nmax=4), inv, 3000)
         else:
             tlc(res, "StoreQuery_limit_mc21.cfg", tlc_consts(Dims(2, 1, 2, 1), mode, *kc, chunks=[0, 10]), inv, 6000)
             tlc(res, "StoreQuery_limit_mc22.cfg", tlc_consts(Dims(2, 2, 1, 1), mode, *kc, chunks=[0, 10]), inv, 6000)
